@@ -18,10 +18,21 @@
   Recipe (n = qn = dn-1, sh = n/2, sl = n-sh): D = B^n/2 + B^(sh+1) - 1, N = Qh·B^sl·D + B^(n+sl+1)/2 - E with
   E = Σ_j qh_j·(D mod B^(sh-1-j))·B^(sl+j) the neglected part; needs sl ≥ cutoff so that the low half recurses.
 
-  Consequently the hypothesis `hX` of Mpir.DcDiv.dcDivQ_exact and the divappr hypothesis of the tdiv_q theorems cannot be
-  discharged for mpn_dc_divappr_q as it stands; they remain assumptions that the real code violates on these inputs.
+  Consequently the hypothesis `hX` of Mpir.DcDiv.dcDivQ_exact and the divappr hypothesis of the tdiv_q theorems could not be
+  discharged for mpn_dc_divappr_q as it stood (the real code violated them on these inputs).
+
+  REPAIRED C (/repo commit 631f91d, model parameter rep = true): `dc_divappr_q_contract` below proves the contract for EVERY
+  size, every DC_DIV_QR_THRESHOLD ≥ 6 and every SB_DIVAPPR_Q_CUTOFF ≥ 3 (lemmas: MpirProofs/Lemmas/DcDivapprArith.lean,
+  SbDivQRem.lean, DcDivappr.lean).  Invariant of every call on its window W (2n+1 limbs) and cut divisor D (n+1 limbs):
+  the quotient limbs Q and the three limbs r3 left in np[dn-2 .. dn] satisfy  W < (Q+1)·D  and  ⌊W/B^(n-1)⌋ = tS D Q n + r3,
+  tS D Q n = Σ_j q_j·⌊D/B^(n-1-j)⌋ the truncated product; r3 ≥ 0 is the point, Q·D - B^(n-1)·tS D Q n < n·B^n ≤ D gives
+  Q ≤ ⌊W/D⌋ + 1.  The leaf mpn_sb_divappr_q keeps the same invariant (`Mpir.SbDivQ.sbLeaf_spec`), so do both saturating
+  exits through __divappr_helper, the repaired rare case (sign test) and the correction loop, which runs AT MOST ONCE.
+  `dc_div_q_exact` discharges the callee hypothesis of Mpir.DcDiv.dcDivQ_exact; `dc_divappr_q_ok` is the hypothesis
+  "callee error ≤ 1" of the tdiv_q theorems (Props/C02_tdivq.lean, which hold for every callee error e ≤ 3) for this callee.
 -/
-import Mpir.Model.DcDivappr
+import MpirProofs.Lemmas.DcDivappr
+import MpirProofs.Lemmas.TdivQ
 namespace Mpir.DcDivappr
 open Mpir
 
@@ -72,6 +83,158 @@ theorem dcDivappr_repaired_examples :
     let r1 := dcDivappr true 50 43 sbLeaf 173 87 N1 D1
     let r := dcDivappr true 50 43 sbLeaf 345 173 N D
     r1.ok = true ∧ r1.qh = 0 ∧ r1.q = N1 / D1 + 1 ∧ r.ok = true ∧ r.qh = 0 ∧ r.q = N / D + 1 := by
+  decide +kernel
+
+/-! ## the contract of the repaired routine -/
+
+private theorem norm_of_half' {n D : Nat} (hn : 1 ≤ n) (h : B ^ n / 2 ≤ D) : B ^ n ≤ 2 * D := by
+  obtain ⟨j, hj⟩ : ∃ j, n = j + 1 := ⟨n - 1, by omega⟩
+  have he : B ^ n = 2 * (B ^ n / 2) := by rw [hj, pow_succ, B_eq]; omega
+  omega
+
+/-- mpn_dc_divappr_q (qp, np, nn, dp, dn, dinv), dc_divappr_q.c:35-148 as repaired (model parameter rep = true), for EVERY size
+    in the C's ASSERTed domain (dn ≥ 6, nn ≥ dn + 3, high bit of dp[dn-1]), EVERY DC_DIV_QR_THRESHOLD T ≥ 6 and EVERY
+    SB_DIVAPPR_Q_CUTOFF C ≥ 3 ("must be at least 3"), any nn-limb N; sizes are mp_size_t (2·dn + 2 ≤ 2^64, the hypothesis of
+    `sb_divappr_q_contract`):  every callee (mpn_sb_div_qr, mpn_dc_div_qr, mpn_sb_divappr_q, the recursive calls) is used
+    inside its ASSERTed domain and qn == dn - 1 after the reduction loop (`ok`), the nn-dn quotient limbs q and the returned
+    high limb qh ≤ 1 satisfy qh·B^(nn-dn) + q ∈ {⌊N/D⌋, ⌊N/D⌋ + 1} — the header of the file —, and the correction loop
+    `while ((mp_limb_signed_t) cy < 0)` at :116 runs at most once in every call of the recursion tree (`wl`). -/
+theorem dc_divappr_q_contract (T C nn dn N D : Nat) (hT : 6 ≤ T) (hC : 3 ≤ C) (hdn : 6 ≤ dn) (hnn : dn + 3 ≤ nn)
+    (hnorm : B ^ dn / 2 ≤ D) (hD : D < B ^ dn) (hN : N < B ^ nn) (hsize : 2 * dn + 2 ≤ B) :
+    let r := dcDivappr true T C sbLeaf nn dn N D
+    r.ok = true ∧ r.q < B ^ (nn - dn) ∧ r.qh ≤ 1 ∧ r.wl ≤ 1 ∧
+      (r.qh * B ^ (nn - dn) + r.q = N / D ∨ r.qh * B ^ (nn - dn) + r.q = N / D + 1) :=
+  dcDivappr_contract T C nn dn N D hT hC hdn hnn (norm_of_half' (by omega) hnorm) hD hN hsize
+
+-- non-vacuity: the smallest operands on which the pinned C returned ⌊N/D⌋ + 2 (`dcDivappr_floor2_small`); the repaired
+-- C takes the rare case :78 in the low half with a negative truncated remainder (sign test), one pass of the loop
+example :
+    let N := 0x4000000000000000000000000000000000000000000000006fffffffffffffffffffffffffffffff900000000000000000000000000000000000000000000000000000000000000000000000000000000
+    let D := 0x800000000000000000000000000000000000000000000000ffffffffffffffffffffffffffffffffffffffffffffffffffffffffffffffff
+    let r := dcDivappr true 6 3 sbLeaf 13 7 N D
+    r.ok = true ∧ r.qh = 0 ∧ r.wl ≤ 1 ∧ r.q = N / D + 1 := by
+  decide +kernel
+
+/-- the three limbs np[dn-2 .. dn] a call leaves are the (non-negative) truncated remainder of its window by the quotient
+    it returns — the invariant behind the contract, for a call whose divisor is cut (qn + 1 < dn) and whose window is
+    below B^qn·(cut divisor), which is how every recursive call is made -/
+theorem dc_divappr_q_remainder (T C nn dn N D : Nat) (hT : 6 ≤ T) (hC : 3 ≤ C) (hdn : 6 ≤ dn) (hnn : dn + 3 ≤ nn)
+    (hnorm : B ^ dn / 2 ≤ D) (hD : D < B ^ dn) (hN : N < B ^ nn) (hsize : 2 * dn + 2 ≤ B)
+    (hcut : nn - dn + 1 < dn) (hpre : N / B ^ (dn - (nn - dn + 1)) / B ^ (nn - dn) < D / B ^ (dn - (nn - dn + 1))) :
+    let r := dcDivappr true T C sbLeaf nn dn N D
+    r.qh = 0 ∧ N / B ^ (dn - (nn - dn + 1)) / B ^ (nn - dn - 1) = tS (D / B ^ (dn - (nn - dn + 1))) r.q (nn - dn) + r.r3 := by
+  have hspec := dcDivapprF_spec T C hT hC nn nn dn N D (by omega) (by omega) hD (norm_of_half' (by omega) hnorm) hN hsize
+    (by omega)
+  unfold CallSpec at hspec
+  simp only [] at hspec
+  rw [if_pos hcut] at hspec
+  exact hspec.2.2.2.2.2.2 hcut hpre
+
+example :
+    let D := B ^ 7 - 1
+    let N := (B ^ 4 - 5) * (D / B ^ 2) * B ^ 2
+    let r := dcDivappr true 6 3 sbLeaf 11 7 N D
+    r.qh = 0 ∧ r.q = B ^ 4 - 5 ∧ N / B ^ 2 / B ^ 3 = tS (D / B ^ 2) r.q 4 + r.r3 := by
+  decide +kernel
+
+/-- LEAF: what mpn_sb_divappr_q (qp, np, dn + m, dp, dn, dinv) leaves behind when the divisor is cut (m + 1 < dn, s = dn - m - 1
+    limbs ignored) and the window's top m + 1 limbs are below the cut divisor — the way mpn_dc_divappr_q calls it (:101, :140):
+    with Wc = ⌊N/B^s⌋, Dc = ⌊D/B^s⌋ the m quotient limbs Q and the three limbs r3 = np[dn-2 .. dn] satisfy Wc < (Q+1)·Dc and
+    ⌊Wc/B^(m-1)⌋ = tS Dc Q m + r3, on every exit of the limb-level model (ordinary last limb, __divappr_helper from the
+    truncating loop or from the last limb).  Strengthens `Mpir.SbDivQ.sb_divappr_q_contract`. -/
+theorem sb_divappr_q_remainder (m dn N D : Nat) (hm : 1 ≤ m) (hcut : m + 1 < dn) (hN : N < B ^ (dn + m)) (hD : D < B ^ dn)
+    (hnorm : B ^ dn / 2 ≤ D) (hsize : 2 * dn + 2 ≤ B)
+    (hpre : N / B ^ (dn - (m + 1)) / B ^ m < D / B ^ (dn - (m + 1))) :
+    let r := sbLeaf (dn + m) dn N D
+    r.ok = true ∧ r.q < B ^ m ∧ N / B ^ (dn - (m + 1)) < (r.q + 1) * (D / B ^ (dn - (m + 1))) ∧
+      N / B ^ (dn - (m + 1)) / B ^ (m - 1) = tS (D / B ^ (dn - (m + 1))) r.q m + r.r3 := by
+  obtain ⟨h1, h2, _, h4, h5⟩ := SbDivQ.sbLeaf_spec m dn N D hm hcut hN hD (norm_of_half' (by omega) hnorm) hsize hpre
+  exact ⟨h1, h2, h4, h5⟩
+
+-- dn = 5, m = 2: the divisor is cut to 3 limbs, two limbs of divisor and dividend are ignored
+example :
+    let N := val [7, 7, 7, 7, 5, 6, 0x4000000000000000]
+    let D := val [1, 2, 3, 4, 0x8000000000000000]
+    let r := sbLeaf 7 5 N D
+    r.ok = true ∧ N / B ^ 2 / B = tS (D / B ^ 2) r.q 2 + r.r3 ∧ (r.q = N / D ∨ r.q = N / D + 1) ∧ 0 < r.r3 := by
+  decide +kernel
+
+/-- on limb vectors: the predicate `DivZ.divapprOk` (callee error ≤ 1, the hypothesis under which mpn_tdiv_q's approximate
+    callee is used: Props/C02_tdivq.lean) holds of the model of the repaired mpn_dc_divappr_q on its whole domain; the
+    `!modeldomain` / `!modelspec` markers of the op `dc_divappr_q_model` are unreachable for rep = 1 -/
+theorem dc_divappr_q_ok (T C : Nat) (n d : List Nat) (hT : 6 ≤ T) (hC : 3 ≤ C) (hdn : 6 ≤ d.length)
+    (hnn : d.length + 3 ≤ n.length) (hnorm : B / 2 ≤ d.getD (d.length - 1) 0) (hn : Limbs n) (hd : Limbs d)
+    (hsize : 2 * d.length + 2 ≤ B) :
+    DivZ.divapprOk n d (dc_divappr_q true T C n d).1 (dc_divappr_q true T C n d).2.2.1 = true ∧
+    (dc_divappr_q true T C n d).2.2.1 ≤ 1 ∧ (dc_divappr_q true T C n d).2.2.2 = true := by
+  obtain ⟨n1, n2, _⟩ := DcDiv.norm_val d hd (by omega) hnorm
+  obtain ⟨c1, c2, c3, _, c5⟩ := dcDivappr_contract T C n.length d.length (val n) (val d) hT hC hdn hnn n1 n2 (val_lt n hn) hsize
+  unfold dc_divappr_q
+  simp only []
+  obtain ⟨tv, tl, _⟩ := SbDivQ.toLimbs_spec' (n.length - d.length) (dcDivappr true T C sbLeaf n.length d.length (val n) (val d)).q
+  rw [Nat.mod_eq_of_lt c2] at tv
+  refine ⟨?_, c3, c1⟩
+  unfold DivZ.divapprOk
+  simp only [tl, tv, beq_self_eq_true, Bool.true_and, Bool.or_eq_true, beq_iff_eq]
+  rcases c5 with h | h
+  · left; rw [← h]; ring
+  · right; rw [← h]; ring
+
+/-- The model of the repaired mpn_dc_divappr_q IS one of the callee oracles over which the mpn_tdiv_q theorems quantify
+    (Props/C02_tdivq.lean: `tdiv_q_contract` etc. hold for every callee error e ≤ 3 through `TdivQ.quotOracle e`): on its
+    domain its quotient limbs and high limb are `quotOracle e` for some e ≤ 1.  So for the generic-C path through
+    mpn_dc_divappr_q the tdiv_q theorems need no assumption about this callee. -/
+theorem dc_divappr_q_oracle (T C : Nat) (n d : List Nat) (hT : 6 ≤ T) (hC : 3 ≤ C) (hdn : 6 ≤ d.length)
+    (hnn : d.length + 3 ≤ n.length) (hnorm : B / 2 ≤ d.getD (d.length - 1) 0) (hn : Limbs n) (hd : Limbs d)
+    (hsize : 2 * d.length + 2 ≤ B) :
+    ∃ e, e ≤ 1 ∧ TdivQ.quotOracle e n d = ((dc_divappr_q true T C n d).1, (dc_divappr_q true T C n d).2.2.1) := by
+  obtain ⟨n1, n2, _⟩ := DcDiv.norm_val d hd (by omega) hnorm
+  obtain ⟨_, c2, _, _, c5⟩ := dcDivappr_contract T C n.length d.length (val n) (val d) hT hC hdn hnn n1 n2 (val_lt n hn) hsize
+  obtain ⟨tv, tl, tL⟩ := SbDivQ.toLimbs_spec' (n.length - d.length) (dcDivappr true T C sbLeaf n.length d.length (val n) (val d)).q
+  rw [Nat.mod_eq_of_lt c2] at tv
+  have hcall : ∀ e, (dcDivappr true T C sbLeaf n.length d.length (val n) (val d)).qh * B ^ (n.length - d.length)
+      + (dcDivappr true T C sbLeaf n.length d.length (val n) (val d)).q = val n / val d + e →
+      TdivQ.quotOracle e n d = ((dc_divappr_q true T C n d).1, (dc_divappr_q true T C n d).2.2.1) := by
+    intro e he
+    have e1 : (dc_divappr_q true T C n d).1
+        = toLimbs (n.length - d.length) (dcDivappr true T C sbLeaf n.length d.length (val n) (val d)).q := rfl
+    have e2 : (dc_divappr_q true T C n d).2.2.1 = (dcDivappr true T C sbLeaf n.length d.length (val n) (val d)).qh := rfl
+    rw [e1, e2]
+    exact TdivQ.oracle_complete e n d _ _ tL tl (by rw [tv]; exact he)
+  rcases c5 with h | h
+  · exact ⟨0, by omega, hcall 0 (by rw [h, Nat.add_zero])⟩
+  · exact ⟨1, by omega, hcall 1 h⟩
+
+/-- mpn_dc_div_q (qp, np, nn, dp, dn, dinv), dc_div_q.c:31-76, UNCONDITIONALLY for the generic C: with the callee
+    mpn_dc_divappr_q (wp, tp, nn + 1, dp, dn, dinv) on tp = N·B as modelled above (repaired C), the result is exactly ⌊N/D⌋.
+    Preconditions = the C's ASSERTs (dn ≥ 6, nn - dn ≥ 3, normalised divisor), T ≥ 6, C ≥ 3, sizes mp_size_t. -/
+theorem dc_div_q_exact (T C nn dn N D : Nat) (hT : 6 ≤ T) (hC : 3 ≤ C) (hdn : 6 ≤ dn) (hnn : dn + 3 ≤ nn)
+    (hnorm : B ^ dn / 2 ≤ D) (hD : D < B ^ dn) (hN : N < B ^ nn) (hsize : 2 * dn + 2 ≤ B) :
+    let a := dcDivappr true T C sbLeaf (nn + 1) dn (N * B) D
+    let r := DcDiv.dcDivQ nn dn N D a.q a.qh
+    a.ok = true ∧ r.2 * B ^ (nn - dn) + r.1 = N / D ∧ r.1 < B ^ (nn - dn) ∧ r.2 ≤ 1 := by
+  have hNB : N * B < B ^ (nn + 1) := by
+    rw [pow_succ]; exact Nat.mul_lt_mul_of_pos_right hN B_pos
+  obtain ⟨c1, c2, c3, _, c5⟩ := dcDivappr_contract T C (nn + 1) dn (N * B) D hT hC hdn (by omega)
+    (norm_of_half' (by omega) hnorm) hD hNB hsize
+  have e : nn + 1 - dn = nn - dn + 1 := by omega
+  rw [e] at c2 c5
+  have hD0 : 0 < D := by
+    have : 0 < B ^ dn / 2 := by
+      have : 2 ≤ B ^ dn := by
+        calc 2 ≤ B := by rw [B_eq]; omega
+          _ = B ^ 1 := (pow_one B).symm
+          _ ≤ B ^ dn := Nat.pow_le_pow_right B_pos (by omega)
+      omega
+    omega
+  obtain ⟨r1, r2, r3⟩ := DcDiv.dcDivQ_spec nn dn N D _ _ (by omega) hD0 hD hN c2 c3 c5
+  exact ⟨c1, r1, r2, r3⟩
+
+example :
+    let D := B ^ 6 - 1
+    let N := (B ^ 3 - 2) * D + 5
+    let a := dcDivappr true 6 3 sbLeaf 10 6 (N * B) D
+    (DcDiv.dcDivQ 9 6 N D a.q a.qh) = (N / D % B ^ 3, N / D / B ^ 3) := by
   decide +kernel
 
 end Mpir.DcDivappr
